@@ -189,6 +189,12 @@ func runC04(c c04Case, rec *ev.Rec) error {
 	if err != nil {
 		return nil
 	}
+	sizes := map[string]int64{}
+	for k := range before {
+		if fi, err := os.Stat(filepath.Join(dirD, k)); err == nil {
+			sizes[k] = fi.Size()
+		}
+	}
 	desc := fmt.Sprintf("damage: %s of %s at offset %d (clean shutdown=%v)", c.Kind, rel, p, c.Clean)
 	reg := prometheus.NewRegistry()
 	db, oerr := tsdb.Open(dirD, promslog.NewNopLogger(), reg, c.H.Cfg.Options(), nil)
@@ -201,10 +207,46 @@ func runC04(c c04Case, rec *ev.Rec) error {
 				continue
 			}
 			if w, ok := after[k]; !ok {
-				bad = append(bad, "removed "+k)
+				bad = append(bad, fmt.Sprintf("removed %s (%d bytes)", k, sizes[k]))
 			} else if w != v {
 				bad = append(bad, "changed "+k)
 			}
+		}
+		if len(bad) > 0 {
+			// Control: what does opening (and closing) the same directory WITHOUT the damage remove
+			// or rewrite? Self-healing of a state the history left behind (e.g. m-mapped chunk files
+			// that fail the mapper's own consistency check) is not an effect of the damage.
+			dirC := filepath.Join(base, "C")
+			if out, err := exec.Command("cp", "-r", r.Dir, dirC).CombinedOutput(); err != nil {
+				return ev.Failf("cp: %v %s", err, out)
+			}
+			os.Remove(filepath.Join(dirC, "lock"))
+			ctlBefore, _ := treeHash(dirC)
+			touched := map[string]bool{}
+			note := func() {
+				now, _ := treeHash(dirC)
+				for k, v := range ctlBefore {
+					if w, ok := now[k]; !ok || w != v {
+						touched[k] = true
+					}
+				}
+			}
+			if cdb, cerr := tsdb.Open(dirC, promslog.NewNopLogger(), prometheus.NewRegistry(), c.H.Cfg.Options(), nil); cerr == nil {
+				cdb.DisableCompactions()
+				note() // right after Open: files it deleted may be written again (identically) later
+				cdb.Close()
+			}
+			note()
+			kept := bad[:0]
+			for _, b := range bad {
+				name := strings.Fields(b)[1]
+				if touched[name] {
+					rec.Class("refused-open-touched-what-a-healthy-open-touches")
+					continue
+				}
+				kept = append(kept, b)
+			}
+			bad = kept
 		}
 		sort.Strings(bad)
 		if len(bad) > 0 {
@@ -268,6 +310,12 @@ func runC04(c c04Case, rec *ev.Rec) error {
 	if hm := db.Head().MaxTime(); hm > maxT {
 		maxT = hm
 	}
+	// new samples must lie ahead of the persisted blocks (a block can end well after its last sample)
+	for _, b := range db.Blocks() {
+		if mt := b.Meta().MaxTime; mt > maxT {
+			maxT = mt
+		}
+	}
 	if maxT == math.MinInt64 {
 		maxT = 0
 	}
@@ -320,7 +368,7 @@ func runC04(c c04Case, rec *ev.Rec) error {
 			}
 		}
 	}
-	if foreignOOO >= 1 && foreignOOO == n-own && strings.HasPrefix(c.Target, "wal") {
+	if foreignOOO >= 1 && foreignOOO == n-own && (strings.HasPrefix(c.Target, "wal") || c.Target == "checkpoint") {
 		return ev.FailSig("wal-repair-reissues-series-ref", "%s: after the WAL repair a new series was given a ref number that samples in the untouched WBL / head chunk files still use; after the next restart those samples (timestamps %v) are returned under the new series\nhistory:\n%s", desc, got, r.TraceString())
 	}
 	if n != 2 {
